@@ -41,7 +41,7 @@ CHECKS = {
  },
  "C08": {
   "text": "Metamorphic generated-input search over noisy free networks: two numpy-verified admissible constrained-point subsets are adjusted by the real binary; residuals, v'Pv, dof, adjusted observations, their standard deviations and the shape of the adjusted network must agree; within each run the corrections of the constrained coordinates are orthogonal to the null space of the dumped design matrix and equal numpy's minimal-norm solution.",
-  "note": "Trusted: truth Jacobian and its null space (numpy), driver dump of the design matrix. Agreement between two datums is limited by gama's own linearisation criterion (tolerances 2e-3 mm / 2e-2 cc / 2e-6 m, 2e-3 relative on v'Pv). Near-singular configurations (singular value ratio < 1e-2) are discarded as ambiguous.",
+  "note": "Trusted: truth Jacobian and its null space (numpy), driver dump of the design matrix. Agreement between two datums is limited by gama's own linearisation criterion (tolerances 5e-3 mm / 5e-2 cc / 1e-5 m, 2e-3 relative on v'Pv). Near-singular configurations (singular value ratio < 1e-2) are discarded as ambiguous.",
   "technique": "metamorphic property-based testing (Hypothesis) + differential check against numpy minimal-norm solution",
  },
  "C17": {
@@ -55,5 +55,10 @@ CHECKS = {
   "note": "Trusted: closed-form ellipsoid formulas in Python, Python float() as literal reference; grey-zone literals (e.g. '1.') are not asserted.",
   "technique": "exhaustive bounded enumeration + property-based testing (Hypothesis) with round-trip oracles",
   "level": "fault_enumeration",
+ },
+ "C10": {
+  "text": "Generated-input search with four relations: diagonal cov-mat vs per-observation stdev attributes; (A,b,C) vs numpy-whitened formulation through Adj for all algorithms and bands; banded clusters with inserted observations to unusable points vs the reduced input with the explicit sub-matrix; malformed matrices (indefinite, zero/negative variance, wrong dim, wrong element count, band>=dim) must be refused by every algorithm with the same located diagnostic.",
+  "note": "Trusted: numpy Cholesky for whitening, my GKF writer; ghost observations are constructed so that the target point is unusable (undeclared, or declared without determinable coordinates).",
+  "technique": "metamorphic / differential property-based testing (Hypothesis) on the real binary and the Adj API",
  },
 }
